@@ -141,7 +141,7 @@ def run_history(cfg, tape):
             return 2.0
 
         me = CB.MetricEvaluator(cfg["p1"], {"a": m1, "b": mb}, log=os.path.join(d, "m.csv"), off=3)
-        oe = CB.ObservableEvaluator(cfg["p2"], [O.SigmaZ(), O.NeighbourInteraction(c=1)], log=os.path.join(d, "o.csv"), num_samples=4, num_chains=2, burn_in=1, steps=1)
+        oe = CB.ObservableEvaluator(cfg["p2"], [O.SigmaZ(), O.NeighbourInteraction(c=1), O.SigmaZ(absolute=True)], log=os.path.join(d, "o.csv"), num_samples=4, num_chains=2, burn_in=1, steps=1)
         msgs = []
         verbose = bool((cfg["p1"] + cfg["e0"]) % 2)
         if verbose:
@@ -153,7 +153,18 @@ def run_history(cfg, tape):
         else:
             lg = CB.Logger(cfg["pl"], logger_fn=msgs.append, msg_gen=lambda s, e, **kw_: f"{e}:{sorted(kw_.items())}", tagv=7)
         md = {"none": None, "dict": {"note": "x"}, "callable": (lambda s, e: {"epoch": e})}[cfg["md"]]
-        ms = CB.ModelSaver(cfg["ps"], os.path.join(d, "sv"), "ep{}.pt", save_initial=cfg["save_init"], metadata=md, metadata_only=cfg["mdonly"])
+        if cfg["mdonly"]:
+            # the folder given as a RELATIVE path: it is the folder that name denoted when the saver was built, wherever
+            # the working directory is by the time training runs
+            other_ = os.path.join(d, "elsewhere")
+            os.makedirs(other_, exist_ok=True)
+            os.chdir(d)
+            try:
+                ms = CB.ModelSaver(cfg["ps"], "sv", "ep{}.pt", save_initial=cfg["save_init"], metadata=md, metadata_only=cfg["mdonly"])
+            finally:
+                os.chdir(other_)
+        else:
+            ms = CB.ModelSaver(cfg["ps"], os.path.join(d, "sv"), "ep{}.pt", save_initial=cfg["save_init"], metadata=md, metadata_only=cfg["mdonly"])
         rec = []  # (fit index, epoch, metric value, params clone, captured-count)
         snaps = {}
         state = dict(injected=False, fit=0)
@@ -272,7 +283,8 @@ def run_history(cfg, tape):
                 exp_rows = []
                 for i, r in enumerate(so):
                     states_ = torch.cat(captured[2 * (i + off):2 * (i + off) + 2])
-                    for name, ob in (("SigmaZ", O.SigmaZ()), (O.NeighbourInteraction(c=1).name, O.NeighbourInteraction(c=1))):
+                    # two observables named "SigmaZ" were given: the documentation gives precedence to the later one
+                    for name, ob in (("SigmaZ", O.SigmaZ(absolute=True)), (O.NeighbourInteraction(c=1).name, O.NeighbourInteraction(c=1))):
                         m, v, n = onepass([float(x) for x in ob.apply(st, states_).tolist()])
                         g = oe.get_value(name, i)
                         acc_ = getattr(oe, name) if name == "SigmaZ" else oe[name]
@@ -348,6 +360,7 @@ def run_history(cfg, tape):
                         break
         return out, nev
     finally:
+        os.chdir(HOME)  # (a relative-folder configuration changed the working directory)
         shutil.rmtree(d, ignore_errors=True)
 
 
